@@ -127,6 +127,26 @@ func nodeValue(y *Y) string {
 	return ""
 }
 
+// deadlockSummary keeps the goroutines of go-task from a full stack dump.
+func deadlockSummary(stack string) string {
+	var keep []string
+	for _, g := range strings.Split(stack, "\n\n") {
+		if strings.Contains(g, "go-task/task/v3") && !strings.Contains(g, "decode.WorkerMain()") {
+			if len(g) > 900 {
+				g = g[:900]
+			}
+			keep = append(keep, g)
+		}
+		if len(keep) >= 5 {
+			break
+		}
+	}
+	if len(keep) == 0 {
+		return tail(stack, 3000)
+	}
+	return strings.Join(keep, "\n\n")
+}
+
 func remoteLooking(s string) bool { return strings.Contains(s, "://") || strings.HasPrefix(s, "git") }
 
 func giturlCoq(s string) (string, bool) {
@@ -287,12 +307,12 @@ func generate(o *common.Opts, obs *common.Obs) []Doc {
 	if thorough {
 		nShards = 1 + (len(muts)-1)/200
 	}
-	half := int(o.Seed/1000) % 3 // the quick tier takes every third mutation; which third rotates with VERIF_SEED
+	half := int(o.Seed/1000) % 4 // the quick tier takes every fourth mutation; which quarter rotates with VERIF_SEED
 	for i, m := range muts {
 		if i%nShards != shard%nShards {
 			continue
 		}
-		if shard >= nShards || (!thorough && (i/nShards)%3 != half) {
+		if shard >= nShards || (!thorough && (i/nShards)%4 != half) {
 			continue
 		}
 		root := max.ReplaceAt(m.p, func(old *Y) *Y { return mutate(m.k, old) })
@@ -333,15 +353,18 @@ func generate(o *common.Opts, obs *common.Obs) []Doc {
 	if thorough {
 		iShards = 1 + (len(imuts)-1)/150
 	}
-	rot := int(o.Seed/1000) % 10
+	rot := int(o.Seed / 1000)
 	ci := 0
 	for i, m := range imuts {
 		if i%iShards != shard%iShards || shard >= iShards {
 			continue
 		}
-		if !thorough && !m.core {
+		if !thorough {
 			ci++
-			if ci%10 != rot {
+			if m.core && (ci+rot)%2 != 0 { // a null entry in a list position: two of the four shapes per run
+				continue
+			}
+			if !m.core && (ci+rot)%16 != 0 {
 				continue
 			}
 		}
@@ -351,6 +374,41 @@ func generate(o *common.Opts, obs *common.Obs) []Doc {
 	if shard == 0 {
 		for _, sh := range includeShapes {
 			docs = append(docs, renderTreeDoc("inc-maximal:"+sh, includeTrees(sh, maxInc), []string{"nonexist", "a:full", "full"}))
+		}
+	}
+
+	// include options that name tasks of the included file (excludes: [default] ...), and the
+	// reader stream: deep chains and wide-and-nested include trees (reading must terminate)
+	{
+		var extra []Doc
+		for _, fl := range []bool{false, true} {
+			for _, ex := range [][]string{nil, {"default"}, {"hello"}, {"default", "hello"}, {"other", "nosuch"}, {"default", "hello", "other"}} {
+				for _, al := range []bool{false, true} {
+					for _, d2 := range []bool{false, true} {
+						internal := len(ex)%2 == 1 && al
+						rootNs := len(ex) == 2 && !al
+						label := fmt.Sprintf("inc-options:flatten=%v:excludes=%v:aliases=%v:depth2=%v", fl, ex, al, d2)
+						extra = append(extra, renderTreeDoc(label, optionTrees(fl, ex, al, internal, d2, rootNs), []string{"a", "a:default", "al", "default", "nonexist"}))
+					}
+				}
+			}
+		}
+		for _, depth := range []int{3, 8, 9, 10, 11, 12} {
+			extra = append(extra, renderTreeDoc(fmt.Sprintf("reader:chain:%d", depth), chainTrees(depth, false), []string{"nonexist"}))
+		}
+		extra = append(extra, renderTreeDoc("reader:chain-flatten:10", chainTrees(10, true), []string{"nonexist"}))
+		for _, w := range []int{4, 8, 9, 12} {
+			extra = append(extra, renderTreeDoc(fmt.Sprintf("reader:wide:%d", w), wideTrees(w, 1), []string{"nonexist"}))
+		}
+		extra = append(extra, renderTreeDoc("reader:wide-nested:10", wideTrees(10, 2), []string{"nonexist"}))
+		for i := range extra {
+			if shard < 8 && i%8 == shard {
+				if strings.HasPrefix(extra[i].Label, "reader:") {
+					extra[i].NoRun = true
+					extra[i].DeadlineS = 10 // a handful of tiny files: reading them takes milliseconds
+				}
+				docs = append(docs, extra[i])
+			}
 		}
 	}
 
@@ -490,10 +548,11 @@ func Main(args []string) {
 			p.close()
 			res = p.run(d)
 		}
-		if res.Class == "timeout" {
+		if res.Class == "timeout" && !res.Deadlock {
 			// a loaded machine can exceed the deadline: once more, alone, with a generous bound
+			// (not when every goroutine of the child was blocked: that is a deadlock, not slowness)
 			obs.Counters["deadline_retries"]++
-			d.DeadlineS = 180
+			d.DeadlineS = 120
 			res = p.run(d)
 		}
 		if res.Decode == "" && (d.Kind == "tree" || d.Kind == "bytes") {
@@ -538,14 +597,19 @@ func Main(args []string) {
 			}
 			obs.ImplFails = append(obs.ImplFails, common.ImplFail{Case: i, Kind: kind, Msg: "sig=" + res.Sig + "\nphase=" + res.Phase + " " + res.Msg + "\n" + tail(res.Stack, 3000)})
 		case "timeout":
-			obs.ImplFails = append(obs.ImplFails, common.ImplFail{Case: i, Kind: "timeout", Msg: "sig=timeout:" + res.Phase + "\n" + tail(res.Stack, 3500)})
+			kind := "timeout"
+			if res.Deadlock {
+				kind = "deadlock"
+			}
+			obs.ImplFails = append(obs.ImplFails, common.ImplFail{Case: i, Kind: kind, Msg: "sig=timeout:" + res.Phase + "\n" + deadlockSummary(res.Stack)})
 		case "err":
 			if !documentedCodes[res.Code] {
 				obs.ImplFails = append(obs.ImplFails, common.ImplFail{Case: i, Kind: "exit-code", Msg: fmt.Sprintf("sig=exit-code:%d\n%s", res.Code, res.Msg)})
 			}
 		}
 		// the CLI on a sample (always on the directed byte documents)
-		if bin != "" && (d.Kind == "tree" || d.Kind == "bytes") && (len(d.Conc) > 0 || i%cliEvery == 0 || (d.Kind == "bytes" && !strings.HasPrefix(d.Label, "rand:")) || o.Replay != "") {
+		isReader := strings.HasPrefix(d.Label, "reader:")
+		if bin != "" && (d.Kind == "tree" || d.Kind == "bytes") && (len(d.Conc) > 0 || isReader || strings.HasPrefix(d.Label, "inc-options:") || i%cliEvery == 0 || (d.Kind == "bytes" && !strings.HasPrefix(d.Label, "rand:")) || o.Replay != "") {
 			name := "nonexist"
 			if len(d.Requested) > 0 {
 				name = d.Requested[0]
@@ -559,6 +623,11 @@ func Main(args []string) {
 			}
 			if d.Kind == "bytes" && len(variants) == 3 {
 				variants = variants[:2]
+			}
+			if isReader {
+				variants = [][]string{{"--list-all"}}
+			} else if strings.HasPrefix(d.Label, "inc-options:") {
+				variants = [][]string{{"--dry", "root"}}
 			}
 			if len(d.Conc) > 0 {
 				variants = [][]string{{"--dry", "all"}, append([]string{"--parallel", "--dry"}, d.Conc...), {"all"}, {"--list-all"}}
